@@ -316,7 +316,38 @@ def keygen_rows(ctx: Ctx):
     return rows
 
 
+def keygen_big_rows(ctx: Ctx):
+    """KeyGen of the three real suites at the real 255-bit group order, HMAC / SHA-256 recorded."""
+    from .constants import limbs
+    rng = random.Random(ctx.seed + 79)
+    rows = []
+    hm = toy.private_module("py_ecc/bls/hash.py", "py_ecc.bls")
+    cs = toy.private_module("py_ecc/bls/ciphersuites.py", "py_ecc.bls")
+    rec = RecHmacModule()
+    hm.hmac = rec
+    cs.hkdf_extract, cs.hkdf_expand = hm.hkdf_extract, hm.hkdf_expand
+    salt_fn = recording_hash(hashlib.sha256)
+    for suite in ("G2Basic", "G2MessageAugmentation", "G2ProofOfPossession"):
+        S = getattr(cs, suite)
+        S.xmd_hash_function = salt_fn
+        for t in range(4 if ctx.tier == "quick" else 30):
+            ikm = rng.randbytes(rng.choice([0, 1, 31, 32, 33, 64, 128]))
+            info = rng.randbytes(rng.choice([0, 0, 1, 16, 64]))
+            rec.g = []
+            salt_fn.g = []
+            raised, sk = _call(lambda: S.KeyGen(ikm, info) if info else S.KeyGen(ikm))
+            M, Sd = {"kind": "graph", "g": list(rec.g)}, {"kind": "graph", "g": list(salt_fn.g)}
+            raised2, sk2 = _call(lambda: S.KeyGen(ikm, info))
+            rows.append({"M": M, "S": Sd, "ikm": list(ikm), "info": list(info),
+                         "r": limbs(sk) if (not raised and isinstance(sk, int) and sk >= 0) else "EXC:raised",
+                         "again": 1 if (not raised2 and sk2 == sk) else 0})
+    return rows
+
+
 def c16(ctx: Ctx):
+    big = keygen_big_rows(ctx)
+    tables.validate(ctx, "HkdfBig", big, invariants=["RowsOK"], tag=lambda r: "keygen_big",
+                    describe=lambda r: f"KeyGen ikm={bytes(r['ikm']).hex()[:40]} info={bytes(r['info']).hex()[:40]} sk={r['r']}")
     rows = hkdf_rows(ctx) + keygen_rows(ctx)
     ctx.log(f"hkdf / keygen: {len(rows)} calls of the real functions")
     for r in rows[:: max(1, len(rows) // 5)][:5]:
